@@ -133,8 +133,7 @@ func ptrStruct(t types.Type) (*types.Named, *types.Struct) {
 }
 
 func fieldComp(n *types.Named, field string) string {
-	p, k := typeKey(n)
-	return "fld_" + sane(p) + "_" + sane(k) + "_" + sane(field)
+	return "fld_" + typeID(n) + "_" + sane(field)
 }
 
 // ghostField looks up a ghost field declared for the named type.
